@@ -54,10 +54,10 @@ class EvalMixin:
     def const(self, name):
         if not hasattr(self, '_consts'):
             self._consts = {}
-            for cj in self.p_consts:
+            for cj in sorted(self.p_consts, key=lambda c: (0 if '/mux.' in c['name'] or '/runner.' in c['name'] else 1)):
                 sn = self.shortfn(cj['name'])
                 self._consts[sn] = cj
-                self._consts[sn.split('.')[-1]] = cj
+                self._consts[sn.split('.')[-1]] = cj   # the main package wins name clashes (e.g. mux.closing / netpoll.closing)
         cj = self._consts.get(name)
         if cj is None: return None
         v = cj.get('val')
